@@ -135,6 +135,11 @@ def run(an: Analysis, rep):
     rep.run(_c03y.r03e, an, shy)
     rep.run(_c03y.r03t, an, shy)
     rep.run(_c03y.r03y, an, shy)
+    rep.run(_c03y.r03f, an, _SR6(rep, "R06.F2", "co_freevars is written as the sequence the operands index (shared with C03's R03.F2): a table written in another order than the one the operands were computed "
+                                                "from swaps the names on every to_code / from_code trip"))
+    from . import c02 as _c02x6
+    rep.run(_c02x6.r02p, an, _SR6(rep, "R06.X", "up to three EXTENDED_ARG prefixes are decoded, more are refused (shared with C02's R02.8): code objects that differ only in redundant prefixes must both "
+                                               "decode to have equal normal forms"))
     from . import c05 as _c05k6
     rep.run(_c05k6.r05k, an, _SR6(rep, "R06.K2", "constants are handed to CodeType with value and type unchanged (shared with C05's R05.K2): a constant rewritten on the way (a str inside a frozenset taken "
                                                  "apart like a tuple) decodes to other data than the normal form it was written from"))
